@@ -544,6 +544,35 @@ func genG02(repo string, w *Out) error {
 	if !strings.Contains(pc.Src(wresp.Body), "if err != nil { p.brw.Flush() } else { err = p.brw.Flush() }") {
 		return fmt.Errorf("writeResponse: final flush of the buffered writer not found")
 	}
+	// the tail: what is returned when writing the response failed, and when res.Close is set
+	var tailIfs []string
+	for _, st := range wresp.Body.List {
+		if is, ok := st.(*ast.IfStmt); ok {
+			c := pc.Src(is.Cond)
+			if c == "err != nil" && strings.Contains(pc.Src(is.Body), "isClosedConnError(err)") {
+				tailIfs = append(tailIfs, pc.Src(is))
+			}
+			if c == "res.Close" && strings.Contains(pc.Src(is.Body), "return errClose") {
+				tailIfs = append(tailIfs, pc.Src(is))
+			}
+		}
+	}
+	reLog := regexp.MustCompile(`log\.(Debug|Error)\(ctx, "[^"]*"(, "error", err)?\)`)
+	var tailNorm []string
+	for _, t := range tailIfs {
+		tailNorm = append(tailNorm, strings.Join(strings.Fields(reLog.ReplaceAllString(t, "LOG")), " "))
+	}
+	tailJoined := strings.Join(tailNorm, " ; ")
+	switch tailJoined {
+	case "if err != nil { if isClosedConnError(err) { LOG } else { LOG } return errClose } ; if res.Close { LOG return errClose }":
+		w.DefBool("wr_write_error_closes", true)
+	case "if err != nil { if isClosedConnError(err) { LOG return errClose } LOG return err } ; if res.Close { LOG return errClose }",
+		"if err != nil { if isClosedConnError(err) { LOG return errClose } return err } ; if res.Close { LOG return errClose }":
+		// only "closed connection" errors end the client connection; any other error is handed to the loop, which keeps it
+		w.DefBool("wr_write_error_closes", false)
+	default:
+		return fmt.Errorf("writeResponse: tail %q is not a shape the model knows", tailJoined)
+	}
 
 	// ---------------------------------------------------------------- proxy_handler.go: the http.Handler variant of the writer
 	ph, err := Parse(repo, "internal/martian/proxy_handler.go")
